@@ -6,6 +6,7 @@ package main
 
 import (
 	"context"
+	"errors"
 	"fmt"
 	"math/big"
 	"strings"
@@ -299,6 +300,35 @@ func driveCancun(seed uint64, n int, size int, em *Emitter) {
 				v = "invalid"
 			}
 			em.Op("C15", fmt.Sprintf("S gate %s %x", f, op), v)
+		}
+	}
+	// ---- (D) stack bounds: the instruction runs at every stack height its arity allows, up to the full 1024 items
+	for _, op := range []byte{opTLOAD, opTSTORE, opMCOPY} {
+		for _, h := range []int{0, 1, 2, 3, 4, 1021, 1022, 1023, 1024} {
+			em.Reset(fmt.Sprintf("cancun-stack-%x-%d", op, h))
+			sdb := newStateDB()
+			env := newEnv("Cancun", nil, nil, sdb, nil)
+			env.evm.CloseAspectCall()
+			sdb.CreateAccount(contractAddr)
+			code := []byte{}
+			for k := 0; k < h; k++ {
+				code = append(code, opPUSH1, 0)
+			}
+			code = append(code, op, opSTOP)
+			sdb.SetCode(contractAddr, code)
+			_, _, err := env.evm.Call(context.Background(), vm.AccountRef(callerAddr), contractAddr, nil, 1_000_000, new(big.Int))
+			v := "ok"
+			var su *vm.ErrStackUnderflow
+			var so *vm.ErrStackOverflow
+			switch {
+			case errors.As(err, &su):
+				v = "underflow"
+			case errors.As(err, &so):
+				v = "overflow"
+			case err != nil:
+				v = "err:" + strings.ReplaceAll(err.Error(), " ", "_")
+			}
+			em.Op("C15", fmt.Sprintf("S stackbounds %x %x", op, h), v)
 		}
 	}
 }
